@@ -293,6 +293,9 @@ func (r *Report) Finish(findingsDir, verifDir string, seed int64) int {
 	r.Analysed["load_s"] = r.w.LoadS
 	r.Analysed["ssa_s"] = r.w.SSAS
 	r.Analysed["captured_locals_promoted"] = r.w.Promoted
+	if len(r.w.Renamed) > 0 {
+		r.Analysed["renamed_helpers_recognised"] = r.w.Renamed
+	}
 	ruleIDs := []string{}
 	for _, ri := range r.Rules {
 		ruleIDs = append(ruleIDs, ri.ID)
